@@ -56,14 +56,15 @@ def _field_calls(fa: FA, field: str, method: str):
     return [c for c in fa.calls(method) if A.dotted(A.call_recv(c)) == "self." + field or _xt(fa, A.call_recv(c), c) == "self." + field]
 
 
-def _binder_iter(fa: FA, name_node):
+def _binder_iter(fa: FA, name_node, pm=None):
     """The iterable that binds the variable `name_node` (a Name): the enclosing comprehension generator or for-loop
-    whose target is that name."""
+    whose target is that name.  (`pm`: parent map of the tree `name_node` lives in, when that is not the function's own)"""
     if not isinstance(name_node, ast.Name):
         return None
+    pm = fa.pm if pm is None else pm
     n = name_node
     while n is not None:
-        n = fa.pm.get(n)
+        n = pm.get(n)
         if isinstance(n, (ast.ListComp, ast.SetComp, ast.GeneratorExp, ast.DictComp)):
             for g in n.generators:
                 if name_node.id in [x.id for x in ast.walk(g.target) if isinstance(x, ast.Name)]:
@@ -72,54 +73,72 @@ def _binder_iter(fa: FA, name_node):
             return n.iter
         if isinstance(n, ast.Lambda) and name_node.id in [a.arg for a in n.args.args]:
             # filter(lambda k: ..., iterable) / map(...)
-            call = fa.pm.get(n)
+            call = pm.get(n)
             if isinstance(call, ast.Call) and isinstance(call.func, ast.Name) and call.func.id in ("filter", "map") and len(call.args) == 2 and call.args[0] is n:
                 return call.args[1]
             return None
     return None
 
 
-def _prefix_tests(fa: FA):
+def _prefix_tests(fa: FA, ck=None):
     """Tests "does the string S start with P", by what they compute: `S.startswith(P)`, `S[:len(P)] == P` (either operand
     order, `!=` as well, the length through a temporary), `S.find(P) == 0`; in the function's own body, comprehensions and
-    lambda bodies included.  -> [(test node, S, P)]"""
+    lambda bodies included, and in what a single-expression helper of the same class returns for the arguments it is
+    called with here (`self._keys_under(self.refs, prefix)`).
+    -> [(test node, S, P, a node of the function at which S and P can be expanded, the iterable that binds S or None)]"""
+    def scan(nodes, at, pm):
+        out = []
+        for n in nodes:
+            hit = None
+            if isinstance(n, ast.Call) and A.call_attr(n) == "startswith" and isinstance(n.func, ast.Attribute) and n.args:
+                hit = (n.func.value, n.args[0])
+            elif isinstance(n, ast.Compare) and len(n.ops) == 1 and isinstance(n.ops[0], (ast.Eq, ast.NotEq)):
+                for (a, b) in ((n.left, n.comparators[0]), (n.comparators[0], n.left)):
+                    if isinstance(a, ast.Subscript) and isinstance(a.slice, ast.Slice) and a.slice.step is None and a.slice.upper is not None \
+                            and (a.slice.lower is None or (isinstance(a.slice.lower, ast.Constant) and a.slice.lower.value == 0)):
+                        up = safe_expand(fa, a.slice.upper, at if at is not None else n)
+                        if isinstance(up, ast.Call) and isinstance(up.func, ast.Name) and up.func.id == "len" and len(up.args) == 1 and not up.keywords \
+                                and A.norm(up.args[0]) == A.norm(safe_expand(fa, b, at if at is not None else n)):
+                            hit = (a.value, b)
+                            break
+                    if isinstance(a, ast.Call) and A.call_attr(a) == "find" and isinstance(a.func, ast.Attribute) and len(a.args) == 1 \
+                            and isinstance(b, ast.Constant) and b.value == 0 and type(b.value) is int:
+                        hit = (a.func.value, a.args[0])
+                        break
+            if hit is not None:
+                out.append((n, hit[0], hit[1], at if at is not None else n, _binder_iter(fa, hit[0], pm)))
+        return out
+
     nodes = list(A.walk_body(fa.node))
     nodes += [x for lam in list(nodes) if isinstance(lam, ast.Lambda) for x in ast.walk(lam.body)]
-    out = []
-    for n in nodes:
-        if isinstance(n, ast.Call) and A.call_attr(n) == "startswith" and isinstance(n.func, ast.Attribute) and n.args:
-            out.append((n, n.func.value, n.args[0]))
-        elif isinstance(n, ast.Compare) and len(n.ops) == 1 and isinstance(n.ops[0], (ast.Eq, ast.NotEq)):
-            for (a, b) in ((n.left, n.comparators[0]), (n.comparators[0], n.left)):
-                if isinstance(a, ast.Subscript) and isinstance(a.slice, ast.Slice) and a.slice.step is None and a.slice.upper is not None \
-                        and (a.slice.lower is None or (isinstance(a.slice.lower, ast.Constant) and a.slice.lower.value == 0)):
-                    up = safe_expand(fa, a.slice.upper, n)
-                    if isinstance(up, ast.Call) and isinstance(up.func, ast.Name) and up.func.id == "len" and len(up.args) == 1 and not up.keywords \
-                            and A.norm(up.args[0]) == A.norm(safe_expand(fa, b, n)):
-                        out.append((n, a.value, b))
-                        break
-                if isinstance(a, ast.Call) and A.call_attr(a) == "find" and isinstance(a.func, ast.Attribute) and len(a.args) == 1 \
-                        and isinstance(b, ast.Constant) and b.value == 0 and type(b.value) is int:
-                    out.append((n, a.func.value, a.args[0]))
-                    break
+    out = scan(nodes, None, None)
+    cls = fa.fi.cls
+    if ck is not None and cls is not None:
+        for c in [n for n in nodes if isinstance(n, ast.Call)]:
+            f = c.func
+            if isinstance(f, ast.Attribute) and isinstance(f.value, ast.Name) and f.value.id in ("self", "cls", cls.name) and f.attr in cls.methods \
+                    and cls.methods[f.attr] is not fa.fi:
+                body = _inline_own_builders(ck, cls, c)
+                if body is not c and not (isinstance(body, ast.Call) and A.norm(body) == A.norm(c)):
+                    sub = list(ast.walk(body))
+                    out += scan(sub, c, A.parent_map(body))
     return out
 
 
 def _forget_by_scan(ck, R, cm, ff, sw, sep):
     own = [p_ for p_ in ff.fi.params if p_ != "self"]
     slots = set()
-    for (c, subj, pre) in sw:
+    for (c, subj, pre, at, it) in sw:
         # the selection prefix, however it is spelled (concatenation / format / f-string, through temporaries), is
         # <function reference>.qualified_name followed by exactly the key separator
-        parts = A.str_parts(safe_expand(ff, pre, c))
+        parts = A.str_parts(safe_expand(ff, pre, at))
         ok = bool(parts) and len(parts) == 2 and parts[0][0] == "expr" and parts[1] == ("lit", sep) and bool(own) \
             and A.norm(parts[0][1]) == own[0] + ".qualified_name"
-        ck.ob(R, ff.key(c, "prefix-terminated"), ok,
+        ck.ob(R, ff.key(at, "prefix-terminated"), ok,
               "selection prefix is qualified_name + %r" % sep if ok else
               "selection prefix is not terminated by the key separator %r: 'f#1' would also select 'f#10/...'" % sep,
-              ff.where(c))
+              ff.where(at))
         # which table do the tested keys come from: the iterable that binds the tested variable (comprehension or loop)
-        it = _binder_iter(ff, subj)
         if it is not None:
             for a in A.attrs_in(it):
                 slots.add(a)
@@ -693,7 +712,7 @@ def check_forget_scope(ck, cm: CacheModel):
     kb.ck.need(len(seps) == 1, "cache key builder: cannot identify the separator constant")
     sep = seps[0]
     ff = FA(ck, "storage_base.MemoryCache.forget_function")
-    sw = _prefix_tests(ff)
+    sw = _prefix_tests(ff, ck)
     if sw:
         _forget_by_scan(ck, R, cm, ff, sw, sep)
     else:
@@ -701,11 +720,14 @@ def check_forget_scope(ck, cm: CacheModel):
     # (b) metadata source
     f1 = FA(ck, MDS + ".forget_function")
     dels = f1.some(f1.calls("delete_all_versions"), "delete_all_versions call")
+    own1 = [p_ for p_ in f1.fi.params if p_ != "self"]
     for c in dels:
         key_ = A.arg_or_kw(c, 0, "key")
-        deps = f1.deps(key_) if key_ is not None else set()
         rec_ = A.arg_or_kw(c, 1, "recursive")
-        ok = "call:_get_function_path" in deps and "param:fn_reference" in deps and rec_ is not None and _xt(f1, rec_, c) == "True"
+        # the function's directory m/<qualified name> of the function asked about: `_get_function_path(fn)` or the same
+        # path written out in place
+        kparts = PathModel(ck).flatten(f1, key_, c) if key_ is not None else []
+        ok = bool(own1) and kparts == [("fnpath", own1[0])] and rec_ is not None and _xt(f1, rec_, c) == "True"
         ck.ob(R, f1.key(c), ok, "deletes exactly the function's directory, recursively" if ok else
               "forget_function does not delete exactly the directory returned by _get_function_path", f1.where(c))
     f2 = FA(ck, MDS + ".forget_call")
@@ -727,6 +749,12 @@ def check_forget_scope(ck, cm: CacheModel):
         hits = [c_ for c_ in ast.walk(x) if isinstance(c_, ast.Call) and A.call_attr(c_) == fn_name and len(c_.args) == 1]
         if len(hits) == 1:
             return hits[0].args[0]
+        # pathlib: PurePosixPath(P).parent / .name
+        attr = "parent" if fn_name == "dirname" else "name"
+        ph = [a_ for a_ in ast.walk(x) if isinstance(a_, ast.Attribute) and a_.attr == attr and isinstance(a_.value, ast.Call)
+              and A.call_attr(a_.value) in ("PurePosixPath", "PurePath", "Path", "PosixPath") and len(a_.value.args) == 1 and not a_.value.keywords]
+        if len(ph) == 1:
+            return ph[0].value.args[0]
         for nm in [n_ for n_ in ast.walk(x) if isinstance(n_, ast.Name)]:
             for d_ in (f2.df.reaching(ids[0], nm.id) if ids else []):
                 st_ = d_.stmt if d_.stmt is not None else (f2.cfg.node(d_.node).ast if d_.node >= 0 else None)
@@ -767,9 +795,17 @@ def check_forget_scope(ck, cm: CacheModel):
         loop = f2.enclosing(c, ast.For)
         rec_ = A.arg_or_kw(c, 1, "recursive")
         key_ = A.arg_or_kw(c, 0, "key")
-        # the loop runs over what the selection listed (directly or through a temporary) and deletes each listed key
-        ok = loop is not None and (lk in list(ast.walk(loop.iter)) or "call:list_keys_nonversioned" in f2.deps(loop.iter)) and isinstance(loop.target, ast.Name) \
-            and key_ is not None and A.norm(key_) == loop.target.id and rec_ is not None and _xt(f2, rec_, c) == "False"
+        # the loop runs over what the selection listed (directly, through a temporary, sorted / enumerated) and deletes each listed key
+        elem = None
+        if loop is not None:
+            it_, tg_ = loop.iter, loop.target
+            while isinstance(it_, ast.Call) and isinstance(it_.func, ast.Name) and it_.func.id in ("enumerate", "sorted", "list", "tuple", "reversed", "iter") and it_.args:
+                if it_.func.id == "enumerate":
+                    tg_ = tg_.elts[1] if isinstance(tg_, ast.Tuple) and len(tg_.elts) == 2 else None
+                it_ = it_.args[0]
+            elem = tg_.id if isinstance(tg_, ast.Name) else None
+        ok = loop is not None and (lk in list(ast.walk(loop.iter)) or "call:list_keys_nonversioned" in f2.deps(loop.iter)) and elem is not None \
+            and key_ is not None and _xt(f2, key_, c) == elem and rec_ is not None and _xt(f2, rec_, c) == "False"
         ck.ob(R, f2.key(c), ok, "each selected key is deleted, non-recursively" if ok else
               "forget_call does not delete exactly the selected keys (non-recursively)", f2.where(c))
     f3 = FA(ck, MDS + ".forget_everything")
@@ -837,6 +873,16 @@ def check_forget_scope(ck, cm: CacheModel):
     for c in fe.calls("clear"):
         # the cleared table, named directly or reached through a loop variable / alias
         cl |= {d[5:] for d in (fe.deps(A.call_recv(c)) if fe.nodes(c) else set()) if d.startswith("attr:self.")} | {A.dotted(A.call_recv(c))}
+    # a table rebound to a fresh empty container is emptied as well
+    for st in fe.stmts(ast.Assign):
+        v_ = st.value
+        empty = (isinstance(v_, (ast.Dict, ast.List, ast.Set)) and not (getattr(v_, "keys", None) or getattr(v_, "elts", None))) or \
+            (isinstance(v_, ast.Call) and A.call_attr(v_) in ("dict", "OrderedDict", "list", "set") and not v_.args and not v_.keywords) or \
+            (isinstance(v_, ast.Call) and A.call_attr(v_) == "defaultdict" and len(v_.args) <= 1 and not v_.keywords)
+        if empty:
+            for t_ in st.targets:
+                if self_attr(t_):
+                    cl.add("self." + self_attr(t_))
     okE = {"self." + t for t in tables} <= cl
     ck.ob(R, fe.key(None, "tables"), okE, "forget_everything clears all tables" if okE else
           "forget_everything does not clear all of %s" % (tables,), fe.where())
@@ -861,9 +907,8 @@ def check_forget_scope(ck, cm: CacheModel):
             for i_ in ids_:
                 out_ |= fF.df.deps(e, i_)
             return out_
-        sw_all = _prefix_tests(fF)
-        sel = [(c, pre) for (c, subj, pre) in sw_all if _binder_iter(fF, subj) is not None
-               and "attr:self." + tb in _deps_at(_binder_iter(fF, subj), c)]
+        sw_all = _prefix_tests(fF, ck)
+        sel = [(at, pre) for (c, subj, pre, at, it) in sw_all if it is not None and "attr:self." + tb in _deps_at(it, at)]
         def _is_tb(e, at, tb=tb):
             return A.norm(e) == "self." + tb or (bool(fF.nodes(at)) and "attr:self." + tb in fF.deps(e))
         rem = [n for n in A.walk_body(fF.node) if (isinstance(n, ast.Delete) and any(isinstance(t, ast.Subscript) and _is_tb(t.value, n) for t in n.targets))
